@@ -194,6 +194,9 @@ def build_unit_text(unit, src):
         body, nloops = L.weave_loops(body, f.loops, f.name)
         body = L.weave_points(body, f.weave, f.name)
         body, log = L.lower(body, f.rules)
+        if getattr(f, 'header_hook', None):
+            # R22: a prologue derived from the real parameter list (the matched header text)
+            body = '{' + f.header_hook(ex['header']) + body[1:]
         if f.body_pre:
             body = '{' + f.body_pre + body[1:]
         f.extract, f.lowered, f.log = ex, body, log
